@@ -236,6 +236,7 @@ func c06CascadeCase(t *rapid.T) {
 	}
 	// in script mode only the first network getter of the cascade can end the caller's context
 	net := kit.NewShrexNet(ctl, sq, height, shrexItems)
+	net.Barrier = true
 	ex := kit.NewBSExchange(ctl, bsItems, func(c cid.Cid) ([]byte, error) { return srv(sq, c) })
 	if useShrex {
 		g, stop, err := c06ShrexGetter(net, kit.TotalSteps(shrexItems)+4)
